@@ -7,11 +7,13 @@ P2 = ("(def (Report (volatile loss 0)) (thresh 5) (volatile vc 7)) (when true (:
       "(fallthrough)) (when (> Report.loss thresh) (report))")
 P3 = "(def (Report (a 1) (b 2) (volatile c 3) (d 4)) (k1 1) (k2 2)) (when true (:= Report.a (+ Report.a k1)) (:= loc Report.b) (report))"
 P4 = "(def (Report.legacy 0) (gain 10)) (when (< Flow.bytes_in_flight gain) (:= Cwnd (* gain 2)) (:= Rate gain) (report))"
+P5 = ("(def (Report (x 0)) " + " ".join("(c%02d %d)" % (i, i) for i in range(14)) + " (ReportEvery 7) (c15 15) (spare c00)) "
+      "(when true (:= Report.x (+ c00 c15)) (report))")   # control 16 `spare` (no DEF: non-literal initial value) cannot be encoded
 PBAD = "(def (Report (x 0))) (when (report) (report))"
-PROGRAMS = {"p1": P1, "p2": P2, "p3": P3, "p4": P4}
+PROGRAMS = {"p1": P1, "p2": P2, "p3": P3, "p4": P4, "p5": P5}
 REPORT_VARS = {"p1": ["Report.acked", "Report.rtt"], "p2": ["Report.loss"], "p3": ["Report.a", "Report.b", "Report.c", "Report.d"],
-               "p4": ["Report.legacy"]}
-CONTROL_VARS = {"p1": ["cwndcap"], "p2": ["thresh", "vc"], "p3": ["k1", "k2"], "p4": ["gain"]}
+               "p4": ["Report.legacy"], "p5": ["Report.x"]}
+CONTROL_VARS = {"p1": ["cwndcap"], "p2": ["thresh", "vc"], "p3": ["k1", "k2"], "p4": ["gain"], "p5": ["c00", "c15", "spare", "ReportEvery", "c07"]}
 OTHER_NAMES = ["Cwnd", "Rate", "Micros", "Ack.bytes_acked", "Flow.was_timeout", "__eventFlag", "__shouldReport", "loc", "nope", "", "Report.", "cwndca", "cwndcapp"]
 
 
@@ -56,7 +58,7 @@ def gen_cmds(rng, progs, in_report, rich=True):
     return ",".join(cmds) if cmds else "-"
 
 
-ALG_NAMES = ["reno", "ren", "renox", "cubic", "bbr", "", "a" * 63, "Reno", "reno ", "é"]
+ALG_NAMES = ["reno", "ren", "renox", "cubic", "bbr", "", "a" * 63, "Reno", "reno ", "é", "a" * 64, "a" * 71, "a" * 62, "bbr2"]
 
 
 def gen_cfg(rng, nadd=None, bad_prog=False, rich=True):
